@@ -95,6 +95,10 @@ class PopUpTarget(WidgetDecoration[WrappedWidget]):
         self._pop_up = None
         self._current_widget = self._original_widget
 
+    def sizing(self) -> frozenset[Sizing]:
+        """Always a box widget (do not inherit the flow/fixed sizing of the decorated widget)."""
+        return self._sizing
+
     def _update_overlay(self, size: tuple[int, int], focus: bool) -> None:
         canv = self._original_widget.render(size, focus=focus)
         self._cache_original_canvas = canv  # imperfect performance hack
